@@ -719,6 +719,53 @@ func runC14(c *Ctx) {
 				}
 			}
 			r.Check(good, "R4", key, c.fpos(hand), why, why)
+			// the gone flag stops every later notification, so it may only become true while a channel exists
+			// (which the same critical section closes) — unless the hand-out function consults that very flag
+			// before it creates a channel: otherwise a channel requested after the flag was latched is never closed
+			for _, f := range c.P.LibraryFuncs() {
+				flow.Instrs(f, func(in ssa.Instruction) {
+					st, ok := in.(*ssa.Store)
+					if !ok {
+						return
+					}
+					tn, fld, _, ok := flow.FieldOf(st.Addr)
+					if !ok || tn != ro.connT.Obj().Name() || !goneFlds[fld] {
+						return
+					}
+					if cst, isC := st.Val.(*ssa.Const); !isC || cst.Value == nil || cst.Value.String() != "true" {
+						return
+					}
+					k := fmt.Sprintf("%s:%s-only-with-channel", fname(f), fld)
+					exists := false
+					for _, g := range flow.Guards(st) {
+						cond, neg := flow.Cond(g.If.Cond, g.Taken)
+						if bo, ok := cond.(*ssa.BinOp); ok {
+							if _, bf, _, ok := flow.FieldOf(bo.X); ok && bf == ro.notifyFld && flow.IsNilConst(bo.Y) && ((bo.Op == token.NEQ) != neg) {
+								exists = true
+							}
+						}
+					}
+					flow.Instrs(f, func(x ssa.Instruction) {
+						if ms, ok := x.(*ssa.Store); ok && flow.Dominates(ms, st) {
+							if _, sf, _, ok := flow.FieldOf(ms.Addr); ok && sf == ro.notifyFld {
+								if _, isMk := ms.Val.(*ssa.MakeChan); isMk {
+									exists = true
+								}
+							}
+						}
+					})
+					consulted := false
+					flow.Instrs(hand, func(x ssa.Instruction) {
+						if ifi, ok := x.(*ssa.If); ok {
+							cond, _ := flow.Cond(ifi.Cond, true)
+							if _, cf, _, ok := flow.FieldOf(cond); ok && cf == fld {
+								consulted = true
+							}
+						}
+					})
+					r.Check(exists || consulted, "R4", k, c.pos(st), "the flag that silences later notifications is set only where a channel exists (or the hand-out function consults it)", "the flag "+fld+" that silences every later notification can be set while no notify channel exists, and "+hand.Name()+" does not consult it: a channel requested afterwards is never closed although the connection is gone")
+				})
+			}
 		}
 	}
 
